@@ -7,13 +7,16 @@
 package rig
 
 import (
+	"context"
 	"errors"
 	"fmt"
+	"net"
 	"sync"
 	"time"
 
 	"go.minekube.com/gate/pkg/edition/java/proto/packet"
 	cfgpacket "go.minekube.com/gate/pkg/edition/java/proto/packet/config"
+	"go.minekube.com/gate/pkg/edition/java/proxy"
 	gproto "go.minekube.com/gate/pkg/gate/proto"
 
 	"verif/harness/mcwire"
@@ -345,4 +348,129 @@ func (sb *ScriptedBackend) WaitAttempt(n int, d time.Duration) (*Attempt, error)
 		return nil, errNoAttempt
 	}
 	return at, nil
+}
+
+// ------------------------------------------------------------------ gated dial
+
+// DialGate lets the harness hold the TCP dial of chosen (player, server) attempts: the
+// proxy is then inside serverConnection.dial, before any backend connection exists.
+type DialGate struct {
+	mu     sync.Mutex
+	hold   map[string]int           // "player/server" -> dials to hold
+	parked map[string]chan struct{} // held dials
+	seen   map[string]int           // dials entered so far
+}
+
+// NewDialGate creates a gate.
+func NewDialGate() *DialGate {
+	return &DialGate{hold: map[string]int{}, parked: map[string]chan struct{}{}, seen: map[string]int{}}
+}
+
+// Hold makes the next dial of player to server park.
+func (g *DialGate) Hold(player, server string) { g.mu.Lock(); g.hold[player+"/"+server]++; g.mu.Unlock() }
+
+// Unhold takes back an unused Hold.
+func (g *DialGate) Unhold(player, server string) {
+	g.mu.Lock()
+	if g.hold[player+"/"+server] > 0 {
+		g.hold[player+"/"+server]--
+	}
+	g.mu.Unlock()
+}
+
+// Parked reports whether a dial of player to server is being held.
+func (g *DialGate) Parked(player, server string) bool {
+	g.mu.Lock()
+	defer g.mu.Unlock()
+	return g.parked[player+"/"+server] != nil
+}
+
+// Dials is the number of dials player has started to server.
+func (g *DialGate) Dials(player, server string) int {
+	g.mu.Lock()
+	defer g.mu.Unlock()
+	return g.seen[player+"/"+server]
+}
+
+// Release lets a held dial go on; false if none is held.
+func (g *DialGate) Release(player, server string) bool {
+	g.mu.Lock()
+	defer g.mu.Unlock()
+	ch := g.parked[player+"/"+server]
+	if ch == nil {
+		return false
+	}
+	delete(g.parked, player+"/"+server)
+	close(ch)
+	return true
+}
+
+// ReleaseAll drops all holds of the player and releases its held dials.
+func (g *DialGate) ReleaseAll(player string) {
+	g.mu.Lock()
+	defer g.mu.Unlock()
+	for k := range g.hold {
+		if len(k) > len(player) && k[:len(player)+1] == player+"/" {
+			delete(g.hold, k)
+		}
+	}
+	for k, ch := range g.parked {
+		if len(k) > len(player) && k[:len(player)+1] == player+"/" {
+			delete(g.parked, k)
+			close(ch)
+		}
+	}
+}
+
+// GatedServerInfo is a proxy.ServerInfo whose connections are dialed through a DialGate
+// (it implements proxy.ServerDialer).
+type GatedServerInfo struct {
+	ServerName string
+	Address    net.Addr
+	G          *DialGate
+}
+
+func (i *GatedServerInfo) Name() string   { return i.ServerName }
+func (i *GatedServerInfo) Addr() net.Addr { return i.Address }
+
+// Dial parks while the gate holds this (player, server), then dials the real address.
+func (i *GatedServerInfo) Dial(ctx context.Context, player proxy.Player) (net.Conn, error) {
+	key := player.Username() + "/" + i.ServerName
+	i.G.mu.Lock()
+	i.G.seen[key]++
+	var ch chan struct{}
+	if i.G.hold[key] > 0 {
+		i.G.hold[key]--
+		ch = make(chan struct{})
+		i.G.parked[key] = ch
+	}
+	i.G.mu.Unlock()
+	if ch != nil {
+		select {
+		case <-ch:
+		case <-ctx.Done():
+			i.G.mu.Lock()
+			if i.G.parked[key] == ch {
+				delete(i.G.parked, key)
+			}
+			i.G.mu.Unlock()
+			return nil, ctx.Err()
+		}
+	}
+	var d net.Dialer
+	return d.DialContext(ctx, "tcp", i.Address.String())
+}
+
+// GateServers re-registers every server of the rig behind a DialGate.
+func (r *Rig) GateServers(g *DialGate) error {
+	for _, rs := range r.P.Servers() {
+		info := rs.ServerInfo()
+		if !r.P.Unregister(info) {
+			return fmt.Errorf("rig: cannot unregister %s", info.Name())
+		}
+		if _, err := r.P.Register(&GatedServerInfo{ServerName: info.Name(), Address: info.Addr(), G: g}); err != nil {
+			return err
+		}
+	}
+	return nil
 }
